@@ -21,6 +21,8 @@ Full structural decision for the stated scope:
              plain re-raises.
   C08-CLASS  the five limits are class attributes of Environment and every limit error
              class derives from ResourceLimitError.
+  C08-MASK   cleanup on the path of a propagating limit error cannot replace it: a ``finally``
+             pops only what was pushed directly before its ``try`` and never returns/breaks.
 Together: with a limit configured, execution is the unlimited execution until a guard
 raises, and raising a limit can only turn a raise into a non-raise.
 """
@@ -75,7 +77,7 @@ def _raises_limit_error(H, body) -> bool:
 
 def run(repo: Repo) -> Result:
     res = Result(PID)
-    res.rules = ["C08-READ", "C08-WRITE", "C08-NEWLINE", "C08-CATCH", "C08-CLASS"]
+    res.rules = ["C08-READ", "C08-WRITE", "C08-NEWLINE", "C08-CATCH", "C08-CLASS", "C08-MASK"]
     res.explanation = (
         "who-may rule over every read of a resource limit (monotone raise-guards only) + "
         "handler discipline for the ResourceLimitError family"
@@ -248,6 +250,70 @@ def run(repo: Repo) -> Result:
     if n_h < 6:
         raise AnchorMissing(f"only {n_h} handlers can catch ResourceLimitError; expected the routing handlers")
     res.stats.update(limit_reads=n_reads, per_limit=per_limit, limit_handlers=n_h)
+    # ---- C08-MASK ---------------------------------------------------------------------------
+    # A limit error propagates through the context managers that raised it (extend -> depth,
+    # loop/iterations -> loop limit, write -> output limit).  Cleanup code on that path must not
+    # replace it: a `finally` may only undo what was done *before* its `try` was entered — a pop
+    # whose push sits inside the try runs also when the guard raised before the push, and then
+    # raises IndexError (or pops somebody else's entry) instead of the ResourceLimitError; and a
+    # `finally` that returns / breaks / continues swallows the error outright.
+    UNDO = {"pop": ("append", "push", "appendleft"), "popleft": ("appendleft", "push", "append"), "remove": ("append", "add"), "discard": ("add",)}
+    n_fin = 0
+    for f in repo.all_functions():
+        for blk in ast.walk(f.node):
+            for fld in ("body", "orelse", "finalbody", "handlers"):
+                seq = getattr(blk, fld, None)
+                if not isinstance(seq, list):
+                    continue
+                for i, st in enumerate(seq):
+                    if not (isinstance(st, ast.Try) and st.finalbody):
+                        continue
+                    n_fin += 1
+                    res.ob(f"finally:{f.qual}")
+                    for n in st.finalbody:
+                        for x in [n] + list(walk_no_nested(n)):
+                            if isinstance(x, (ast.Return, ast.Break, ast.Continue)):
+                                res.add("C08-MASK", f.qual, f"finally-{type(x).__name__.lower()}", f"{f.qual}: `{type(x).__name__.lower()}` inside `finally` swallows an exception in flight — a ResourceLimitError raised in the block would be lost", f.file, x.lineno)
+                    for c in (c for n in st.finalbody for c in calls_in(n)):
+                        nm = callee_name(c)
+                        if nm not in UNDO or not isinstance(c.func, ast.Attribute):
+                            continue
+                        chain = text(c.func.value)
+                        # the matching push must be a statement of the enclosing block before the try,
+                        # with nothing that can raise in between
+                        ok = False
+                        cseq, ci = seq, i
+                        # a try that is the whole body of a `with` is entered iff the with was
+                        # entered: the push may then sit directly before the `with` (whose
+                        # entering may raise — after the push, before the try: nothing to undo
+                        # twice, the pop simply does not run)
+                        if ci == 0 and isinstance(blk, (ast.With, ast.AsyncWith)) and fld == "body" and len(seq) == 1:
+                            for par in ast.walk(f.node):
+                                for pf in ("body", "orelse", "finalbody"):
+                                    ps = getattr(par, pf, None)
+                                    if isinstance(ps, list) and any(q is blk for q in ps):
+                                        cseq, ci = ps, next(k for k, q in enumerate(ps) if q is blk)
+                        for j in range(ci - 1, -1, -1):
+                            p_ = cseq[j]
+                            if isinstance(p_, ast.Expr) and isinstance(p_.value, ast.Call) and isinstance(p_.value.func, ast.Attribute) and p_.value.func.attr in UNDO[nm] and text(p_.value.func.value) == chain:
+                                ok = True
+                                break
+                            if any(True for _ in calls_in(p_)) or isinstance(p_, (ast.With, ast.Try, ast.For, ast.While, ast.If)):
+                                break
+                        if not ok:
+                            inside = any(isinstance(y, ast.Call) and isinstance(y.func, ast.Attribute) and y.func.attr in UNDO[nm] and text(y.func.value) == chain for b in st.body for y in ast.walk(b))
+                            res.add(
+                                "C08-MASK",
+                                f.qual,
+                                f"unpaired-{nm}:{chain}",
+                                f"{f.qual}: `finally: {chain}.{nm}()` is not preceded, directly before its `try`, by the matching push"
+                                + (" (the push is inside the try, so the pop also runs when a limit guard raised before the push" if inside else " (")
+                                + " — the ResourceLimitError in flight is replaced by IndexError, or another construct's entry is removed)",
+                                f.file,
+                                c.lineno,
+                            )
+    if n_fin < 3:
+        raise AnchorMissing(f"only {n_fin} try/finally blocks found (extend, loop, iterations expected)")
     return res
 
 
